@@ -26,3 +26,53 @@ package iterator
 //@   runtime_panics
 //@   ensures smHas[smKey(uint64(_this.iteratorFuncs), t)]
 //@   xensures smHas[smKey(uint64(_this.iteratorFuncs), t)] == old(smHas[smKey(uint64(_this.iteratorFuncs), t)])
+
+// ---------------------------------------------------------------------------------------------
+// Events emitted for a value (C05 kernel). The receiver is the ghost event log.
+// iterateInterface emits the events of one object (assumed: at least one event, nothing else of
+// the log is touched - the log is append-only by construction - and the iterator context is not
+// changed).
+//@ func iterateInterface
+//@   trusted
+//@   requires context != nil
+//@   modifies ev, alloc
+//@   ensures evLen > old(evLen)
+//@   may_panic
+
+// A node is: OnNode, its value, its children, OnEndContainer.
+//@ func iterateNode
+//@   requires context != nil && context.EventReceiver != nil
+//@   modifies ev, alloc
+//@   ensures evLen >= old(evLen) + 3 && evIs(old(evLen), "OnNode") && evIs(evLen - 1, "OnEndContainer")
+//@   may_panic
+//@   loop 0 modifies ev, alloc
+//@   loop 0 invariant context != nil && evLen >= old(evLen) + 2 && evIs(old(evLen), "OnNode") && 0 <= i
+
+// An edge is: OnEdge, source, description, destination, OnEndContainer (the validator and both
+// decoders close an edge with an end-container event; C10 table: the edge destination state is
+// left only by OnEnd).
+//@ func iterateEdge
+//@   requires context != nil && context.EventReceiver != nil
+//@   modifies ev, alloc
+//@   ensures evLen >= old(evLen) + 5 && evIs(old(evLen), "OnEdge") && evIs(evLen - 1, "OnEndContainer")
+//@   may_panic
+
+// A slice or array of bool is one OnArray event of type bit: element k is bit k%8 of byte k/8, the
+// unused bits of the last byte are zero.
+//@ func iterateSliceOrArrayBool
+//@   requires context != nil && context.EventReceiver != nil
+//@   modifies ev, alloc, memall(uint8)
+//@   let n = rvLen[uint64(v.ptr)]
+//@   ensures evLen == old(evLen) + 1 && evIs(old(evLen), "OnArray") && evArg(old(evLen), 0, "events.ArrayType") == events.ArrayType(6) && evArg(old(evLen), 1, "uint64") == uint64(n)
+//@   ensures uint64(len(evArg(old(evLen), 2, "[]byte"))) == cbe.ChunkBytes(1, uint64(n))
+//@   ensures forall k int :: 0 <= k && k < n ==> ((evArg(old(evLen), 2, "[]byte")[k >> 3] >> uint(k & 7)) & 1 == 1) == rvBool[rvElem(uint64(v.ptr), k)]
+//@   ensures forall k int :: n <= k && k < 8 * len(evArg(old(evLen), 2, "[]byte")) ==> (evArg(old(evLen), 2, "[]byte")[k >> 3] >> uint(k & 7)) & 1 == 0
+//@   may_panic
+//@   loop 0 modifies mem(data)
+//@   loop 0 invariant elementCount == n && 0 <= iSrc && iSrc <= elementCount && 0 <= iDst && elementCount > 0
+//@   loop 0 invariant uint64(len(data)) == cbe.ChunkBytes(1, uint64(n)) && data.off == 0 && fresh(data)
+//@   loop 0 invariant (iSrc == 8 * iDst && iDst <= len(data)) || (iSrc == elementCount && iDst == len(data))
+//@   loop 0 invariant forall k int :: 0 <= k && k < iSrc ==> ((data[k >> 3] >> uint(k & 7)) & 1 == 1) == rvBool[rvElem(uint64(v.ptr), k)]
+//@   loop 0 invariant forall k int :: iSrc <= k && k < 8 * len(data) ==> (data[k >> 3] >> uint(k & 7)) & 1 == 0
+//@   loop 0 decreases elementCount - iSrc
+//@   loop 1 unroll 8
